@@ -177,6 +177,31 @@ def add_edges(spec, rnd, uniform):
     return spec
 
 
+def int_declared_constants(spec, rnd):
+    """One or two constants are declared with an integer default (k: 2); the nodes keep the default, carry an integral override or a
+    non-integral one - in half of the cases only the LAST node of the circuit that uses the operator carries a non-integral value
+    (the merged variable must become a float vector whichever node brings the first non-integral value)."""
+    from vp.ref import _walk
+    node_list, _ = _walk(spec['circ'])
+    cands = [(o, v) for o, od in spec['ops'].items() for v, d in od['vars'].items() if d[0] == 'const']
+    for o, v in rnd.sample(cands, min(len(cands), rnd.randint(1, 2))):
+        spec['ops'][o]['vars'][v][1] = rnd.choice([1, 2, 3, 5])
+        users = [nt for _, nt in node_list if o in spec['node_types'][nt]['ops']]
+        last_only = rnd.random() < 0.5
+        for i, nt in enumerate(users):
+            over = spec['node_types'][nt].setdefault('over', {}).setdefault(o, {})
+            if last_only:
+                keep = i == len(users) - 1
+            else:
+                keep = rnd.random() < 0.5
+            if keep:
+                over[v] = round(rnd.uniform(0.3, 4.0), 4) if v not in over else over[v]
+            elif rnd.random() < 0.5:
+                over[v] = float(rnd.choice([1, 2, 3, 4]))
+            else:
+                over.pop(v, None)
+
+
 def make_spec(case, opened):
     if case.get('spec') is not None:
         spec = case['spec']
@@ -207,6 +232,8 @@ def make_spec(case, opened):
                         if d[0] == 'in':
                             d[1] = 0.0
             spec = gen.individualize(base, rnd, params=rnd.choice(['different', 'different', 'equal']))
+            if not want and rnd.random() < 0.2:
+                int_declared_constants(spec, rnd)
             spec = add_edges(spec, rnd, uniform)
             if et_mode:
                 spec = gen.add_edge_templates(spec, rnd, frac=rnd.choice([0.3, 0.6, 1.0]),
